@@ -36,11 +36,29 @@ func carriesValue(t types.Type, depth int) bool {
 }
 
 // derivesFromField: v is computed from a load of field fld (through ranges, lookups, index, loads).
+var paramOrigins func(*ssa.Parameter) []ssa.Value // set while a rule that follows values into helpers runs
+
 func derivesFromField(v ssa.Value, fld *types.Var, depth int) bool {
 	if depth > 12 || v == nil {
 		return false
 	}
 	switch x := v.(type) {
+	case *ssa.Parameter:
+		if paramOrigins != nil {
+			for _, o := range paramOrigins(x) {
+				if derivesFromField(o, fld, depth+3) {
+					return true
+				}
+			}
+		}
+		return false
+	case *ssa.FreeVar:
+		for _, bv := range freeVarBindings(x) {
+			if derivesFromField(bv, fld, depth+1) {
+				return true
+			}
+		}
+		return false
 	case *ssa.Alloc:
 		if refs := x.Referrers(); refs != nil {
 			for _, ref := range *refs {
@@ -98,11 +116,32 @@ func ruleN(p *Program, r *Reporter) {
 		return
 	}
 	st := opT.Underlying().(*types.Struct)
-	region := p.PrivateRegion(fn)
+	region := map[*ssa.Function]bool{}
 	var regionFns []*ssa.Function
-	for g := range region {
+	for _, g := range p.Reach(fn) {
+		region[g] = true
 		regionFns = append(regionFns, g)
 	}
+	paramOrigins = func(prm *ssa.Parameter) []ssa.Value {
+		g := prm.Parent()
+		idx := -1
+		for i, q := range g.Params {
+			if q == prm {
+				idx = i
+			}
+		}
+		var out []ssa.Value
+		if idx < 0 || !region[g] || g == fn {
+			return nil
+		}
+		for _, s := range p.CallSitesOf(g) {
+			if c, ok := s.instr.(ssa.CallInstruction); ok && idx < len(c.Common().Args) && len(c.Common().Args) == len(g.Params) {
+				out = append(out, c.Common().Args[idx])
+			}
+		}
+		return out
+	}
+	defer func() { paramOrigins = nil }()
 	sort.Slice(regionFns, func(i, j int) bool { return regionFns[i].Pos() < regionFns[j].Pos() })
 	isExp := func(sc *ssa.Function) bool {
 		return sc != nil && (sc == expCol || sc.Name() == "expandNamedUUID" || sc.Name() == "expandColumnNamedUUIDs")
@@ -138,20 +177,59 @@ func ruleN(p *Program, r *Reporter) {
 		} else {
 			res = append(res, c)
 		}
-		for _, v := range res {
-			if refs := v.Referrers(); refs != nil {
-				for _, ref := range *refs {
-					switch u := ref.(type) {
-					case *ssa.MapUpdate:
-						if u.Value == v {
-							return true
+		var stored func(v ssa.Value, depth int) bool
+		stored = func(v ssa.Value, depth int) bool {
+			refs := v.Referrers()
+			if refs == nil || depth > 3 {
+				return false
+			}
+			for _, ref := range *refs {
+				switch u := ref.(type) {
+				case *ssa.MapUpdate:
+					if u.Value == v {
+						return true
+					}
+				case *ssa.Store:
+					if u.Val == v {
+						return true
+					}
+				case *ssa.Return:
+					// handed back to the caller: stored there
+					g := u.Parent()
+					if g == fn || !region[g] {
+						continue
+					}
+					for k, rv := range u.Results {
+						if rv != v {
+							continue
 						}
-					case *ssa.Store:
-						if u.Val == v {
-							return true
+						for _, s := range p.CallSitesOf(g) {
+							cv, ok := s.instr.(*ssa.Call)
+							if !ok {
+								continue
+							}
+							if len(u.Results) == 1 {
+								if stored(cv, depth+1) {
+									return true
+								}
+								continue
+							}
+							if crefs := cv.Referrers(); crefs != nil {
+								for _, cr := range *crefs {
+									if ex, ok := cr.(*ssa.Extract); ok && ex.Index == k && stored(ex, depth+1) {
+										return true
+									}
+								}
+							}
 						}
 					}
 				}
+			}
+			return false
+		}
+		for _, v := range res {
+			if stored(v, 0) {
+				return true
 			}
 		}
 		return false
@@ -207,33 +285,41 @@ func ruleN(p *Program, r *Reporter) {
 						passes = true
 					}
 				}
-				switch {
-				case isExp(sc) && passes:
-					reads = append(reads, x)
-				case sc != nil && region[sc] && sc != fn && !isExp(sc):
-					// a private helper: writes the map it is given or returns
-					helperWrites := false
-					for _, hb := range sc.Blocks {
-						for _, hi := range hb.Instrs {
-							if mu, ok := hi.(*ssa.MapUpdate); ok && isNameMap(mu.Map) {
-								helperWrites = true
-							}
-						}
-					}
-					helperReads := false
-					for _, hb := range sc.Blocks {
-						for _, hi := range hb.Instrs {
-							if hc, ok := hi.(*ssa.Call); ok && isExp(hc.Call.StaticCallee()) {
-								helperReads = true
-							}
-						}
-					}
-					if helperWrites {
-						writes = append(writes, x)
-					}
-					if helperReads {
+				if isExp(sc) {
+					if passes {
 						reads = append(reads, x)
 					}
+					continue
+				}
+				// a helper (called directly, through a table or as a function value): it
+				// writes the name map and/or substitutes, itself or in what it reaches
+				callees, _ := p.Callees(x)
+				helperWrites, helperReads := false, false
+				for _, callee := range callees {
+					if callee == nil || callee == fn || !region[callee] || isExp(callee) {
+						continue
+					}
+					for _, h := range p.Reach(callee) {
+						if h == fn {
+							continue
+						}
+						for _, hb := range h.Blocks {
+							for _, hi := range hb.Instrs {
+								if mu, ok := hi.(*ssa.MapUpdate); ok && isNameMap(mu.Map) && !isExp(h) {
+									helperWrites = true
+								}
+								if hc, ok := hi.(*ssa.Call); ok && isExp(hc.Call.StaticCallee()) && !isExp(h) {
+									helperReads = true
+								}
+							}
+						}
+					}
+				}
+				if helperWrites {
+					writes = append(writes, x)
+				}
+				if helperReads {
+					reads = append(reads, x)
 				}
 			}
 		}
@@ -338,10 +424,13 @@ func ruleGGate(p *Program, r *Reporter) {
 	ci := getCallIndex(p)
 	// gated: the call is dominated by a checked expansion in its own function, or its
 	// function is a private helper of Transact all of whose call sites are gated
+	gates := gateWrappers(exp, region)
 	var gated func(g *ssa.Function, c *ssa.Call, depth int) bool
 	gated = func(g *ssa.Function, c *ssa.Call, depth int) bool {
-		if dominatedByCheckedCall(g, c, exp, func(*ssa.Call) bool { return true }) {
-			return true
+		for _, gate := range gates {
+			if dominatedByCheckedCall(g, c, gate, func(*ssa.Call) bool { return true }) {
+				return true
+			}
 		}
 		if g == fn || depth > 4 || !region[g] {
 			return false
@@ -385,4 +474,81 @@ func ruleGGate(p *Program, r *Reporter) {
 	if n < 6 {
 		r.Anchor(id, fmt.Sprintf("Transact dispatches %d table operations, expected 6", n))
 	}
+}
+
+// gateWrappers: the gate function and the private helpers that cannot report
+// success without it having succeeded: every return of such a helper hands back
+// the error of a gate call, is dominated by a checked gate call, or returns an
+// error that was just created.
+func gateWrappers(gate *ssa.Function, region map[*ssa.Function]bool) []*ssa.Function {
+	errT := types.Universe.Lookup("error").Type()
+	out := []*ssa.Function{gate}
+	isGate := func(f *ssa.Function) bool {
+		for _, g := range out {
+			if g == f {
+				return true
+			}
+		}
+		return false
+	}
+	var fns []*ssa.Function
+	for g := range region {
+		fns = append(fns, g)
+	}
+	sort.Slice(fns, func(i, j int) bool { return fns[i].Pos() < fns[j].Pos() })
+	for round := 0; round < 3; round++ {
+		for _, g := range fns {
+			if isGate(g) || g.Parent() != nil || len(g.Blocks) == 0 {
+				continue
+			}
+			res := g.Signature.Results()
+			if res.Len() == 0 || !types.Identical(res.At(res.Len()-1).Type(), errT) {
+				continue
+			}
+			calls := false
+			ok := true
+			for _, b := range g.Blocks {
+				ret, isRet := b.Instrs[len(b.Instrs)-1].(*ssa.Return)
+				if !isRet {
+					continue
+				}
+				ev := ret.Results[len(ret.Results)-1]
+				good := false
+				switch x := ev.(type) {
+				case *ssa.Extract:
+					if c, isC := x.Tuple.(*ssa.Call); isC && isGate(c.Call.StaticCallee()) {
+						good, calls = true, true
+					}
+				case *ssa.Call:
+					if sc := x.Call.StaticCallee(); sc != nil {
+						if isGate(sc) {
+							good, calls = true, true
+						} else if sc.Pkg != nil && (sc.Pkg.Pkg.Path() == "fmt" && sc.Name() == "Errorf" || sc.Pkg.Pkg.Path() == "errors" && sc.Name() == "New") {
+							good = true
+						}
+					}
+				case *ssa.MakeInterface:
+					good = true
+				}
+				if !good {
+					for _, gt := range out {
+						for _, b2 := range g.Blocks {
+							for _, i2 := range b2.Instrs {
+								if c, isC := i2.(*ssa.Call); isC && c.Call.StaticCallee() == gt && b2.Dominates(b) && errCheckedBefore(c, ret) {
+									good, calls = true, true
+								}
+							}
+						}
+					}
+				}
+				if !good {
+					ok = false
+				}
+			}
+			if ok && calls {
+				out = append(out, g)
+			}
+		}
+	}
+	return out
 }
